@@ -450,6 +450,7 @@ def gen_sources(ctx):
             spec["table"] = True
             spec["tracked"] = i % 4 == 1
             spec["bare_note"] = i % 4 == 3
+            spec["empty_table"] = i % 3 != 2
         srcs.append({"kind": "generated", "spec": spec})
     return srcs
 
